@@ -49,6 +49,13 @@ VALUES = [0, 1, 5, -3, True, False, 2.5, 5.0, 5.0005, 5.002, 4.9995, float('nan'
           # infinities and an int beyond the range of floats
           float('inf'), float('-inf'), 10 ** 400,
           b'abc', b'ABC', b'a,b.c!', b'', [b'abc'], {'k': b'ABC'}, (b'abc', 'abc')]
+# values that have no literal repr: written as the expression that builds them (dict views, ranges)
+SOURCES = {}
+for _src in ("{'a': 1, 'b': 2}.items()", "{'b': 2, 'a': 1}.items()", "{'a': 1, 'b': 2}.keys()", "{'a': 1, 'b': 2}.values()", "{'x': 2, 'y': 1}.values()",
+             "range(3)", "range(0)"):
+    SOURCES[len(VALUES)] = _src
+    VALUES.append(eval(_src))
+VALUES += [{('a', 1), ('b', 2)}, [('a', 1), ('b', 2)], {'a', 'b'}, [0, 1, 2]]
 # pairs that are always run in BOTH argument orders (also in the quick tier)
 BOTH_ORDERS = [({0.0, 0.0005}, {0.0004, 0.002}), (frozenset({0.0, 0.0005}), frozenset({0.0004, 0.002})), ([{0.0, 0.0005}], [{0.0004, 0.002}]),
                ({'k': {0.0, 0.0005}}, {'k': {0.0004, 0.002}}), ({1.0, 5.0}, {5.0004, 1.0004}), ({'a': 1.0, 'b': 2.0}, {'b': 2.0004, 'a': 1.0004})]
